@@ -197,14 +197,16 @@ impl Prop for C01 {
         "exploration"
     }
     fn rule(&self, _: &Ctx) -> String {
-        "block = entity length x chunk plan (plus bodies of 4 MiB + 1 .. 70 MiB drained completely); inside: methods {GET,HEAD,POST} x Range values (boundary positions for that length, multi, unsatisfiable, garbage, >64-bit) x conditional-header combinations; contract-honouring entities. Non-trivial = distinct (request, entity, plan) whose 200/206 body delivered >= 1 byte and was compared with Content-Length and the exact size hint".into()
+        "block = entity length x chunk plan (plus bodies of 4 MiB + 1 .. 70 MiB drained completely, and requests judged while 70 / 300 / 1100 other responses of every shape are alive); inside: methods {GET,HEAD,POST} x Range values (boundary positions for that length, multi, unsatisfiable, garbage, >64-bit) x conditional-header combinations; contract-honouring entities. Non-trivial = distinct (request, entity, plan) whose 200/206 body delivered >= 1 byte and was compared with Content-Length and the exact size hint".into()
     }
     fn n_blocks(&self, ctx: &Ctx) -> usize {
-        c01_n_blocks(ctx) + long_body_n(ctx)
+        c01_n_blocks(ctx) + long_body_n(ctx) + 1
     }
     fn run_block(&self, b: usize, sink: &mut Sink) {
         let n = c01_n_blocks(sink.ctx);
-        if b >= n {
+        if b >= n + long_body_n(sink.ctx) {
+            many_live_block(sink, &c01_judge);
+        } else if b >= n {
             long_body_block(b - n, sink, &c01_judge);
         } else {
             c01_block(b, sink, &c01_judge);
@@ -306,6 +308,50 @@ pub fn long_body_block(i: usize, sink: &mut Sink, judge: &ServeJudge) {
             exec(&c, sink, judge);
             sink.count("long_bodies_drained");
         }
+    }
+}
+
+/// Many responses of every shape alive (built, not yet drained or dropped) at the same time,
+/// then ordinary requests judged while they live.
+pub fn many_live_block(sink: &mut Sink, judge: &ServeJudge) {
+    if sink.ctx.leg.slow() {
+        return;
+    }
+    for n_live in [70usize, 300, 1100] {
+        let mut held: Vec<http::Response<http_serve::Body<bytes::Bytes, crate::ent::BoxError>>> = Vec::new();
+        for i in 0..n_live {
+            let ent = default_ent(5000);
+            let (e, _rec) = crate::ent::MonEntity::<bytes::Bytes>::new(ent);
+            let mut req = http::Request::builder().uri("/").body(()).unwrap();
+            let r: &[u8] = match i % 3 {
+                0 => b"bytes=0-1, 10-20, 4000-4100",
+                1 => b"bytes=7-77",
+                _ => b"",
+            };
+            if !r.is_empty() {
+                req.headers_mut().insert("range", http::HeaderValue::from_bytes(r).unwrap());
+            }
+            if let Ok(resp) = crate::util::catch(|| http_serve::serve(e, &req)) {
+                held.push(resp);
+            }
+        }
+        for (i, r) in [&b"bytes=0-1, 10-20, 4000-4100"[..], b"bytes=7-77", b"", b"bytes=0-0,-1", b"bytes=100-199,50-149,4990-"].iter().enumerate() {
+            for len in [5000u64, 100_000] {
+                let mut ent = default_ent(len);
+                if i % 2 == 1 {
+                    ent.plan = chunk_plans()[2].clone();
+                }
+                let mut c = ServeCase::get(ent);
+                c.cap = 1 << 18;
+                if !r.is_empty() {
+                    c.hdrs.push(("range".into(), r.to_vec()));
+                }
+                exec(&c, sink, judge);
+                sink.count("requests_with_many_live_bodies");
+            }
+        }
+        sink.max("max_live_bodies", held.len() as u64);
+        drop(held);
     }
 }
 
@@ -1089,7 +1135,8 @@ fn c04_judge(c: &ServeCase, o: &ServeObs, sink: &mut Sink) -> (Verdict, Option<u
         cond::Outcome::Continue => {
             // processing continues to range selection
             match c.hdr("range") {
-                Some(b"bytes=0-0") if c.ent.len > 0 && c.hdr("if-range").is_none() => r.status == 206,
+                Some(b"bytes=0-0") | Some(b"bytes=2-3") | Some(b"bytes=0-1, 4-5") if c.ent.len > 5 && c.hdr("if-range").is_none() => r.status == 206,
+                Some(b"bytes=100-") if c.ent.len <= 100 && c.hdr("if-range").is_none() => r.status == 416,
                 _ => r.status == 200 || r.status == 206 || r.status == 416,
             }
         }
@@ -1161,7 +1208,7 @@ impl Prop for C04 {
         "exploration"
     }
     fn rule(&self, ctx: &Ctx) -> String {
-        format!("full product: ETag {{absent, strong, weak, \"a, b\", \"x y\", non-ASCII opaque}} x mtime {{absent, whole second, +1ms, +500ms, +999999999ns, one hour ahead of the clock, year 3000}} x If-Match x If-None-Match (each: absent, *, all single tags and {} pairs over {{same-strong, same-weak, other-strong, other-weak, tag containing ', ', own tag + '-gzip', own tag with one byte changed}}, sampled 3-4 element lists) x If-Modified-Since x If-Unmodified-Since {{absent, second-1, second, second+1}} x GET/HEAD{}. Non-trivial = distinct case with at least one conditional header whose status was compared with the RFC 7232 model",
+        format!("full product: ETag {{absent, strong, weak, \"a, b\", \"x y\", non-ASCII opaque}} x mtime {{absent, whole second, +1ms, +500ms, +999999999ns, one hour ahead of the clock, year 3000}} x If-Match x If-None-Match (each: absent, *, all single tags and {} pairs over {{same-strong, same-weak, other-strong, other-weak, tag containing ', ', own tag + '-gzip', own tag with one byte changed}}, sampled 3-4 element lists) x If-Modified-Since x If-Unmodified-Since {{absent, second-1, second, second+1}} x GET/HEAD x Range {{absent, satisfiable or unsatisfiable}}{}. Non-trivial = distinct case with at least one conditional header whose status was compared with the RFC 7232 model",
             if thorough(ctx) { "all" } else { "a fifth of the" }, if thorough(ctx) { " x 3 date syntaxes x with/without Range" } else { "" })
     }
     fn n_blocks(&self, ctx: &Ctx) -> usize {
@@ -1182,7 +1229,8 @@ impl Prop for C04 {
         let inms = ims.clone();
         let sec = mtime.map(|m| m.0).unwrap_or(FIXED_SEC);
         let styles: &[DateStyle] = if big { &[DateStyle::Imf, DateStyle::Rfc850, DateStyle::Asctime] } else { &[DateStyle::Imf] };
-        let ranges: &[Option<&[u8]>] = if big { &[None, Some(b"bytes=0-0")] } else { &[None] };
+        // a Range header must not change a 412 / 304 outcome - satisfiable or not
+        let ranges: &[Option<&[u8]>] = if big { &[None, Some(b"bytes=0-0"), Some(b"bytes=100-"), Some(b"bytes=0-1, 4-5")] } else if b % 2 == 0 { &[None, Some(b"bytes=100-")] } else { &[None, Some(b"bytes=2-3")] };
         for inm in &inms {
             if sink.stopped() {
                 return;
@@ -1261,6 +1309,20 @@ fn c05_judge(c: &ServeCase, o: &ServeObs, sink: &mut Sink) -> (Verdict, Option<u
         sink.count("with_passing_precondition");
     }
     let if_range = c.hdr("if-range");
+    let n_if_range = c.hdrs.iter().filter(|(k, _)| k.eq_ignore_ascii_case("if-range")).count();
+    if n_if_range > 1 {
+        // several If-Range field lines: the statement does not say which one counts. Judged only
+        // when no line, taken alone, would allow the range (then no reading allows it).
+        let any_could_allow = c.hdrs.iter().filter(|(k, _)| k.eq_ignore_ascii_case("if-range")).any(|(_, v)| {
+            let strong_identical = cond::is_tag(v) && !cond::is_weak(v) && c.ent.etag.as_deref() == Some(&v[..]);
+            let date_equal = matches!((hdr_date_secs(Some(v)), c.ent.mtime), (Ok(Some(d)), Some(m)) if d == m.0);
+            strong_identical || date_equal
+        });
+        if any_could_allow {
+            return (Verdict::DontCare("several If-Range lines, one of which matches".into()), None);
+        }
+        sink.count("repeated_if_range_lines_none_matching");
+    }
     let honour = match if_range {
         None => Some(true),
         Some(v) => {
@@ -1400,7 +1462,7 @@ impl Prop for C05 {
         "exploration"
     }
     fn rule(&self, _: &Ctx) -> String {
-        "full product: ETag {absent, strong, weak, strong with comma, strong with obs-text bytes} x mtime {absent, whole second, +500ms} x If-Range {absent, identical, same opaque strong/weak, W/ and w/ variants, different strong/weak, unterminated prefix, suffix, shorter, longer, upper-cased, unquoted, trailing space, two-tag list, *, empty, garbage, non-ASCII, dates -1s/equal/+1s/+1d in three syntaxes} x Range {single, first byte, suffix, multi (multipart-eligible), multi small, unsatisfiable, whole} x companion precondition {none, If-Match: *, If-Match: own tag, If-Match list containing it, non-matching If-None-Match, later If-Unmodified-Since, earlier If-Modified-Since} x GET/HEAD x 2 lengths. Non-trivial = distinct case carrying Range whose status/Content-Range was compared with the If-Range rule".into()
+        "full product: ETag {absent, strong, weak, strong with comma, strong with obs-text bytes} x mtime {absent, whole second, +500ms} x If-Range {absent, identical, same opaque strong/weak, W/ and w/ variants, different strong/weak, unterminated prefix, suffix, shorter, longer, upper-cased, unquoted, trailing space, two-tag list, *, empty, garbage, non-ASCII, dates -1s/equal/+1s/+1d in three syntaxes} x Range {single, first byte, suffix, multi (multipart-eligible), multi small, unsatisfiable, whole} x companion precondition {none, If-Match: *, If-Match: own tag, If-Match list containing it, non-matching If-None-Match, later If-Unmodified-Since, earlier If-Modified-Since} x GET/HEAD x 2 lengths; every If-Range case again with a second, different If-Range field line before or after it (judged when no line alone would allow the range). Non-trivial = distinct case carrying Range whose status/Content-Range was compared with the If-Range rule".into()
     }
     fn n_blocks(&self, _: &Ctx) -> usize {
         5 * 3
@@ -1450,6 +1512,15 @@ impl Prop for C05 {
                                 c.hdrs.push(("if-range".into(), v.clone()));
                             }
                             exec(&c, sink, &c05_judge);
+                            // the same with a second, different If-Range field line before / after it
+                            if let (Some(_), None) = (&ir, pre) {
+                                for (k, other) in [&b"\"v0\""[..], b"W/\"v1\"", b"Thu, 01 Jan 1970 00:00:00 GMT"].iter().enumerate() {
+                                    let mut c2 = c.clone();
+                                    let at = c2.hdrs.iter().position(|(k, _)| k == "if-range").unwrap();
+                                    c2.hdrs.insert(if k % 2 == 0 { at } else { at + 1 }, ("if-range".into(), other.to_vec()));
+                                    exec(&c2, sink, &c05_judge);
+                                }
+                            }
                         }
                     }
                 }
@@ -1460,7 +1531,7 @@ impl Prop for C05 {
         replay_serve(&c05_judge, case, sink);
     }
     fn floors(&self, _: &Ctx) -> Vec<(&'static str, u64)> {
-        vec![("must_honour", 100), ("must_ignore", 1000), ("date_equal_either", 10), ("with_passing_precondition", 1000)]
+        vec![("must_honour", 100), ("must_ignore", 1000), ("date_equal_either", 10), ("with_passing_precondition", 1000), ("repeated_if_range_lines_none_matching", 1000)]
     }
     fn assumptions(&self) -> Vec<String> {
         vec!["an If-Range HTTP-date exactly equal to the Last-Modified second may be honoured or refused (not judged)".into()]
@@ -1962,6 +2033,37 @@ pub fn c07_cases_for_tuple(t: &[u32], slow: bool) -> Vec<ServeCase> {
     out
 }
 
+/// Faults in bodies of more than 64 KiB delivered in small chunks (the tuple enumeration only
+/// has bodies of a few bytes): error / early end / over-run late in the body, 200 and single range.
+pub fn long_fault_cases(slow: bool) -> Vec<ServeCase> {
+    let mut out = Vec::new();
+    if slow {
+        return out;
+    }
+    for len in [65_536u64, 70_000, 200_000] {
+        for sizes in [vec![Sz::Abs(700)], vec![Sz::Abs(100), Sz::Abs(1000), Sz::Abs(5)], vec![Sz::Abs(4096), Sz::Abs(1)], vec![Sz::Abs(65_536)]] {
+            for range in [None, Some(format!("bytes=5-{}", len - 3))] {
+                let (start, rlen) = if range.is_some() { (5u64, len - 7) } else { (0, len) };
+                let _ = start;
+                for (kind, at) in [(FaultKind::Err, rlen - 1), (FaultKind::Err, 66_000.min(rlen - 2)), (FaultKind::Err, 1000), (FaultKind::EarlyEnd, rlen - 1), (FaultKind::EarlyEnd, 65_000), (FaultKind::Overrun, 3), (FaultKind::ExtraByte, rlen), (FaultKind::ExtraChunk, rlen)] {
+                    for pend in [false, true] {
+                        let plan = ChunkPlan { sizes: sizes.clone(), pend_mask: if pend { 0b1 } else { 0 }, pend_period: if pend { 7 } else { 0 }, hint_exact: false };
+                        let ent = EntSpec { len, etag: None, mtime: None, hdrs: vec![("content-type".into(), b"x/y".to_vec())], plan, fault: Some(Fault { call: 0, at, kind: kind.clone() }), slow_calls: false, content_mode: 0 };
+                        let mut c = ServeCase::get(ent);
+                        c.cap = len + 4096;
+                        c.extra_polls = 4;
+                        if let Some(r) = &range {
+                            c.hdrs.push(("range".into(), r.clone().into_bytes()));
+                        }
+                        out.push(c);
+                    }
+                }
+            }
+        }
+    }
+    out
+}
+
 impl Prop for C07 {
     fn id(&self) -> &'static str {
         "C07"
@@ -1970,7 +2072,7 @@ impl Prop for C07 {
         "fault_enumeration"
     }
     fn rule(&self, _: &Ctx) -> String {
-        "exhaustive: every entity stream of 1..4 chunks (1..5 in the thorough tier) with chunk lengths 0..3 x fault {early end, Err, one extra byte inside a chunk, one extra chunk} at every byte offset x response shape {200, single 206, multipart of 2 and 3 parts with the fault in each part} x {plain, Pending polls before the fault, stream with an exact size_hint, runs of 40 empty chunks}. Non-trivial = distinct case in which the faulty stream was actually requested and the terminal event / delivered byte count was compared with the rule".into()
+        "exhaustive: every entity stream of 1..4 chunks (1..5 in the thorough tier) with chunk lengths 0..3 x fault {early end, Err, one extra byte inside a chunk, one extra chunk} at every byte offset x response shape {200, single 206, multipart of 2 and 3 parts with the fault in each part} x {plain, Pending polls before the fault, stream with an exact size_hint, runs of 40 empty chunks}; plus the same fault kinds late in bodies of 64 KiB .. 200 KB delivered in chunks of 5 .. 4096 bytes. Non-trivial = distinct case in which the faulty stream was actually requested and the terminal event / delivered byte count was compared with the rule".into()
     }
     fn n_blocks(&self, ctx: &Ctx) -> usize {
         if ctx.leg.slow() { 40 } else if thorough(ctx) { c07_tuples_upto(5).len() } else { c07_tuples().len() }
@@ -1987,6 +2089,12 @@ impl Prop for C07 {
                 return;
             }
             exec(&c, sink, &c07_judge);
+        }
+        if b == 0 {
+            for c in long_fault_cases(slow) {
+                exec(&c, sink, &c07_judge);
+                sink.count("long_body_fault_cases");
+            }
         }
     }
     fn replay(&self, case: &Value, sink: &mut Sink) {
@@ -2564,8 +2672,12 @@ impl Prop for C14 {
             return;
         }
         let etags: [Option<&[u8]>; 3] = [None, Some(b"\"v1\""), Some(b"W/\"v1\"")];
-        let etag = etags[b % 3];
+        let mut etag = etags[b % 3];
         let mtime = c14_mtimes(now)[(b / 3) % 11];
+        // half of the blocks: opaque part with obs-text bytes and characters that lists split on
+        if (b / 33) % 2 == 1 {
+            etag = [None, Some(&b"\"r\xe9v, \xfc-1\""[..]), Some(&b"W/\"r\xe9v, \xfc-1\""[..])][b % 3];
+        }
         let hdr_sets = c06_hdr_sets();
         let hdrs = hdr_sets[[0usize, 1, 2, 4][b / 33]].clone();
         let slow = sink.ctx.leg.slow();
@@ -2683,11 +2795,11 @@ impl Prop for C15 {
         "exploration"
     }
     fn rule(&self, _: &Ctx) -> String {
-        "every request of the C01 workload (length x chunk plan x Range values x conditional combinations), the C06 multi-range workload, the 250-request shape product (Range kind x If-Range kind x precondition) for 7 entity header sets incl. repeated header names, and random C13 requests, sent once as GET and once as HEAD. Non-trivial = distinct request whose GET/HEAD status, header multisets (minus Date/Last-Modified), empty HEAD body and zero get_range calls were compared".into()
+        "every request of the C01 workload (length x chunk plan x Range values x conditional combinations), the C06 multi-range workload, the 250-request shape product (Range kind x If-Range kind x precondition) for 7 entity header sets incl. repeated header names, random C13 requests, sent once as GET and once as HEAD; and streaming_body built for GET and for HEAD over 6 Accept-Encoding values x 4 levels x 2 chunk sizes x both request representations. Non-trivial = distinct request whose GET/HEAD status, header multisets (minus Date/Last-Modified), empty HEAD body and zero get_range calls were compared".into()
     }
     fn n_blocks(&self, ctx: &Ctx) -> usize {
         let s = c01_space(ctx);
-        s.lens.len() * 2 + 32 + c06_hdr_sets().len()
+        s.lens.len() * 2 + 32 + c06_hdr_sets().len() + 1
     }
     fn run_block(&self, b: usize, sink: &mut Sink) {
         let ctx = sink.ctx.clone();
@@ -2742,6 +2854,43 @@ impl Prop for C15 {
                     run(&c, sink);
                 }
             }
+        } else if b == s.lens.len() * 2 + 32 + c06_hdr_sets().len() {
+            // streaming_body: HEAD gets the same status and headers as GET, no writer, an empty body
+            for ae in [None, Some(&b"gzip"[..]), Some(b"identity"), Some(b"*"), Some(b"gzip;q=0.5, identity;q=0.4"), Some(b"br")] {
+                for level in [None, Some(0u32), Some(1), Some(9)] {
+                    for chunk in [1usize, 4096] {
+                        for via_parts in [false, true] {
+                            if !sink.admit() {
+                                continue;
+                            }
+                            let mk = |method: &str| crate::e2::StreamCase { method: method.into(), accept_encoding: ae.map(|v| v.to_vec()), chunk, gzip_level: level, via_parts, payload: crate::e2::Payload::Text, ops: vec![crate::e2::Op::WriteAll(100)], extra_polls: 1, fresh_wakers: false, prelude: 0, builder_detour: 0 };
+                            let (g, h) = match (crate::e2::run_stream(&mk("GET")), crate::e2::run_stream(&mk("HEAD"))) {
+                                (Some(g), Some(h)) => (g, h),
+                                _ => continue,
+                            };
+                            let desc = json!({"streaming_body": mk("HEAD").to_json(), "get": g.to_json(), "head": h.to_json()});
+                            let sorted = |o: &crate::e2::StreamObs| {
+                                let mut v = o.hdrs.clone();
+                                v.sort();
+                                v
+                            };
+                            let v = if g.build_panic.is_some() || h.build_panic.is_some() {
+                                Verdict::DontCare("build panicked (C17)".into())
+                            } else if g.status != h.status || sorted(&g) != sorted(&h) {
+                                Verdict::viol("streaming-head-headers-differ", format!("GET {} {:?} vs HEAD {} {:?}", g.status, sorted(&g), h.status, sorted(&h)))
+                            } else if h.writer_returned || !g.writer_returned {
+                                Verdict::viol("streaming-head-writer", format!("writer returned: GET {}, HEAD {}", g.writer_returned, h.writer_returned))
+                            } else if !h.delivered.is_empty() || !h.all_polls().any(|p| p.ev == crate::bodymon::Ev::End) || h.all_polls().next().is_some_and(|p| p.upper != Some(0) || p.lower != 0) {
+                                Verdict::viol("streaming-head-body-not-empty", format!("HEAD body delivered {} bytes; first size hint {:?}", h.delivered.len(), h.all_polls().next().map(|p| (p.lower, p.upper))))
+                            } else {
+                                sink.count("streaming_head_pairs");
+                                Verdict::Ok
+                            };
+                            sink.record(v, Some(hash64(&mk("HEAD"))), &|| desc.clone());
+                        }
+                    }
+                }
+            }
         } else if b >= s.lens.len() * 2 + 32 {
             // the request-shape product for every entity header set
             let k = b - (s.lens.len() * 2 + 32);
@@ -2779,9 +2928,9 @@ impl Prop for C15 {
         sink.record(v, nt, &|| rendered.clone());
     }
     fn floors(&self, _: &Ctx) -> Vec<(&'static str, u64)> {
-        vec![("pair_status_200", 1000), ("pair_status_206", 1000), ("pair_status_304", 100), ("pair_status_412", 100), ("pair_status_416", 100), ("pair_multipart", 100), ("shape_product_requests", 1000)]
+        vec![("pair_status_200", 1000), ("pair_status_206", 1000), ("pair_status_304", 100), ("pair_status_412", 100), ("pair_status_416", 100), ("pair_multipart", 100), ("shape_product_requests", 1000), ("streaming_head_pairs", 90)]
     }
     fn assumptions(&self) -> Vec<String> {
-        vec!["the streaming_body half of the statement (same headers, no writer for HEAD) is decided by C17's workload and judged there and here via the C17 pairs".into()]
+        vec!["the streaming_body half of the statement (same headers, no writer, empty body for HEAD) is judged here on 96 configurations and, over the whole negotiation space, by C17".into()]
     }
 }
